@@ -112,6 +112,16 @@ class SpsStub:
     def linalg(self):
         return self
 
+    @staticmethod
+    def csc_matrix(A):  # noqa: N803
+        return A
+
+    csr_matrix = csc_matrix
+
+    def factorized(self, A):  # noqa: N803
+        """scipy.sparse.linalg.factorized(A): a solver for systems with THIS matrix (same contract as spsolve)."""
+        return lambda b: self.spsolve(A, b)
+
     def spsolve(self, A, b, use_umfpack=True):  # noqa: N803
         A = A.a if isinstance(A, Dense) else np.asarray(A, dtype=object)
         n = len(b)
@@ -178,6 +188,48 @@ def case_hp(n):
         return bool(bad), f"n={n} lambda={lam}: max|cycle+trend-y|={np.max(np.abs(cycle + trend - y)):.3g}, max|(I+lam K'K) trend - y|={np.max(np.abs(A @ trend - y)):.3g}"
 
     return Case(f"hp-n{n}", body, replay)
+
+
+def case_two_calls(n):
+    """Two successive calls with the same length and different lambdas / series: the second is not allowed to remember the first."""
+
+    def body(ctx):
+        stub = SpsStub()
+        y1, y2 = ctx.reals("y", (n,)), ctx.reals("z", (n,))
+        l1, l2 = ctx.real("lam"), ctx.real("lam2")
+        ctx.assume(l1 > 0)
+        ctx.assume(l2 > 0)
+        with patched(ts, np=NPX, sps=stub):
+            ts.hp_filter(y1, l1)
+            cycle, trend = ts.hp_filter(y2, l2)
+        K = _K(n)
+        KtK = K.T @ K
+        ctx.prove(z3.And(*[lift(cycle[i]) + lift(trend[i]) == lift(y2[i]) for i in range(n)]), "hp_rhs_and_split", "second call: cycle + trend = series")
+        ctx.prove(z3.And(*[lift(trend[i]) + lift(l2) * z3.Sum([lift(Fraction(float(KtK[i, j]))) * lift(trend[j]) for j in range(n)]) == lift(y2[i]) for i in range(n)]),
+                  "hp_optimality", f"n={n}: second call with another lambda on the same length")
+
+    def replay(cex):
+        v = cex.values
+        y1 = np.array([float(f(v.get(f"y_{i}", i * 0.5))) for i in range(n)])
+        y2 = np.array([float(f(v.get(f"z_{i}", 1.0 + (i * 7 % 5)))) for i in range(n)])
+        if np.allclose(y2, y2[0]):
+            y2 = np.array([1.0 + (i * 7 % 5) for i in range(n)], dtype=float)
+        l1 = min(max(float(f(v.get("lam", 1600))) or 1.0, 1e-3), 1e7)
+        l2 = min(max(float(f(v.get("lam2", 6.25))) or 6.25, 1e-3), 1e7)
+        if abs(l1 - l2) < 1e-9:
+            l2 = l1 * 100 if l1 < 1e4 else l1 / 100
+        try:
+            ts.hp_filter(y1, l1)
+            cycle, trend = ts.hp_filter(y2, l2)
+        except Exception as e:  # noqa: BLE001
+            return True, f"hp_filter raised {type(e).__name__}: {e}"
+        K = _K(n)
+        A = np.eye(n) + l2 * K.T @ K
+        scale = 1 + np.max(np.abs(y2)) * (1 + l2)
+        bad = np.max(np.abs(cycle + trend - y2)) > 1e-9 * scale or np.max(np.abs(A @ trend - y2)) > 1e-7 * scale
+        return bool(bad), f"n={n}: hp_filter(.., {l1}) then hp_filter(y, {l2}): max|(I+lam K'K) trend - y| = {np.max(np.abs(A @ trend - y2)):.3g}"
+
+    return Case(f"twocalls-n{n}", body, replay)
 
 
 def case_wrappers(n):
@@ -274,6 +326,7 @@ def precheck(tier, seed):
 def cases(tier, seed):
     ns = range(3, 9) if tier == "quick" else list(range(3, 25)) + [32, 40, 48]
     cs = [case_hp(n) for n in ns]
+    cs += [case_two_calls(n) for n in (list(ns)[:3] if tier == "quick" else [3, 4, 6, 9, 16])]
     cs += [case_wrappers(n) for n in (list(ns)[:4] if tier == "quick" else [3, 4, 5, 6, 8, 12, 16, 24, 32])]
     return cs
 
